@@ -39,22 +39,27 @@ RandResponder(m) ==
 
 \* a case of the adversarial family; topo is a sequence, entry m + 1 describes node m
 \* (the parameter keeps TLC from caching the definitions as constants)
-RandAdvCase(c0) ==
-    [fam |-> "adv", op |-> RandomElement(Ops), n |-> N, min |-> RandomElement(Mins), vmode |-> RandomElement(0..3),
+\* klen: length of the key in bytes (get / put; find-node and join look for a full 32-byte id); with a
+\* short key the distances of the nodes are drawn from 0..2, so that distinct nodes tie
+RandAdvCase(op, kl) ==
+    [fam |-> "adv", op |-> op, n |-> N, min |-> RandomElement(Mins), vmode |-> RandomElement(0..3),
+     klen |-> kl, dist |-> IF kl = 32 THEN IdDist(N) ELSE [i \in 1..N |-> RandomElement(0..2)],
      init |-> [i \in 1..RandomElement(0..MaxInitLen) |-> RandomElement(Nodes)],
      topo |-> [k \in 1..N |-> RandResponder(k - 1)]]
 
 \* a case of the honest family: the replayer builds the network from these numbers
-RandHonestCase(c0) ==
-    [fam |-> "honest", op |-> RandomElement(Ops), min |-> RandomElement(Mins), vmode |-> RandomElement(0..3),
+RandHonestCase(op, kl) ==
+    [fam |-> "honest", op |-> op, min |-> RandomElement(Mins), vmode |-> RandomElement(0..3), klen |-> kl,
      size |-> RandomElement(HonestSizes), peers |-> RandomElement({2, 3, 5, 8, 10, 20, 256}),
      data |-> RandomElement({1, 2, 4}), dead |-> RandomElement(0..3), advn |-> RandomElement({0, 0, 1, 3}),
      ninit |-> RandomElement(0..3), dup |-> Pick(<<FALSE, FALSE, TRUE>>),
      holders |-> RandomElement(0..3), poison |-> RandomElement(0..1), prefill |-> RandomElement(0..6),
      exists |-> Pick(<<TRUE, TRUE, FALSE>>), seed |-> RandomElement(1..1000000)]
 
-GenInit == st = Start("findnode", <<>>, 0, 0) /\ cnt = 0 /\ case = <<>>
-GenNext == /\ \E c \in {IF RandomElement(1..HonestEvery) = 1 THEN RandHonestCase(cnt) ELSE RandAdvCase(cnt)} :
+GenInit == st = Start("findnode", <<>>, 0, 0, <<>>) /\ cnt = 0 /\ case = <<>>
+GenNext == /\ \E op \in {RandomElement(Ops)}, k0 \in {RandomElement({1, 2, 31, 32, 32})} :
+              \E kl \in {IF op \in {"get", "put"} THEN k0 ELSE 32} :
+              \E c \in {IF RandomElement(1..HonestEvery) = 1 THEN RandHonestCase(op, kl) ELSE RandAdvCase(op, kl)} :
                 /\ PrintT(ToJson(<<"CASE", c>>))
                 /\ case' = c
            /\ cnt' = cnt + 1
@@ -64,20 +69,30 @@ GenSpec == GenInit /\ [][GenNext]_genvars
 -----------------------------------------------------------------------------
 \* exhaustive small family
 EffReplies(m) == {SetToSeq(S) : S \in SUBSET (0..(m - 1))} \cup {SetToSeq(0..m)}
-SmallResponders(op, m) ==
+SmallResponders(op, m, vals, replies) ==
     {[id |-> m, reply |-> <<>>, fail |-> TRUE, accept |-> FALSE, val |-> 0, bad |-> FALSE]} \cup
     {[id |-> m, reply |-> r, fail |-> FALSE, accept |-> a, val |-> v, bad |-> FALSE] :
-        r \in EffReplies(m), a \in (IF op = "put" THEN BOOLEAN ELSE {FALSE}),
-        v \in (IF op = "get" THEN ValClasses ELSE {0})}
+        r \in replies, a \in (IF op = "put" THEN BOOLEAN ELSE {FALSE}),
+        v \in (IF op = "get" THEN vals ELSE {0})}
 RECURSIVE Topos(_, _)
 Topos(op, k) == IF k = 0 THEN {<<>>}
-                ELSE {Append(t, r) : t \in Topos(op, k - 1), r \in SmallResponders(op, k - 1)}
+                ELSE {Append(t, r) : t \in Topos(op, k - 1), r \in SmallResponders(op, k - 1, ValClasses, EffReplies(k - 1))}
+\* tie part (get / put with a short key): nodes 0 and 1 tie, node 2 is farther and may name a closer
+\* node twice around the other one
+TieReplies(m) == IF m < 2 THEN {<<>>, <<m>>} ELSE {<<>>, <<0>>, <<0, 1>>, <<0, 1, 0>>, <<1, 0, 1>>, <<1, 1, 0>>}
+RECURSIVE TieTopos(_, _)
+TieTopos(op, k) == IF k = 0 THEN {<<>>}
+                   ELSE {Append(t, r) : t \in TieTopos(op, k - 1), r \in SmallResponders(op, k - 1, {0, 1}, TieReplies(k - 1))}
 SmallInit == /\ cnt = 0
-             /\ \E op \in Ops : \E init \in (IF op = "get" THEN SmallGetInitials ELSE Initials) :
+             /\ \/ \E op \in Ops : \E init \in (IF op = "get" THEN SmallGetInitials ELSE Initials) :
                   \E min \in (IF op = "put" THEN Mins ELSE {0}), vm \in (IF op = "get" THEN VModes ELSE {0}) :
-                     /\ st = Start(op, init, min, vm)
-                     /\ case \in {[fam |-> "adv", op |-> op, n |-> N, min |-> min, vmode |-> vm, init |-> init, topo |-> t] :
-                                    t \in Topos(op, N)}
+                     /\ st = Start(op, init, min, vm, IdDist(N))
+                     /\ case \in {[fam |-> "adv", op |-> op, n |-> N, min |-> min, vmode |-> vm, klen |-> 32,
+                                    dist |-> IdDist(N), init |-> init, topo |-> t] : t \in Topos(op, N)}
+                \/ \E op \in Ops \cap {"get", "put"}, init \in SmallTieInitials, kl \in {1} :
+                     /\ st = Start(op, init, 0, 1, SmallTieDist)
+                     /\ case \in {[fam |-> "adv", op |-> op, n |-> N, min |-> 0, vmode |-> 1, klen |-> kl,
+                                    dist |-> SmallTieDist, init |-> init, topo |-> t] : t \in TieTopos(op, N)}
 SmallNext == FALSE /\ UNCHANGED genvars
 SmallSpec == SmallInit /\ [][SmallNext]_genvars
 Dump == PrintT(ToJson(<<"CASE", case>>))
